@@ -286,6 +286,7 @@ func (g G) planC11() *Plan {
 	for h := 0; h < nh; h++ {
 		m := &MsgSpec{Kind: "metadata"}
 		g.drawHost(fmt.Sprintf("boot%d", h), &p.World.IDP, h, m)
+		m.TLS = g.chance(fmt.Sprintf("boot%d.tls", h), 35)
 		p.Steps = append(p.Steps, Step{K: "send", Msg: m}, Step{K: "finish", Pick: 99})
 	}
 	p.World.Presessions = append(p.World.Presessions, Preseed{SP: 0, AuthRequestID: "_pre" + sessionMarker(900), RelayState: "r", ACS: p.World.SPs[0].ACS[0].URL, Binding: BindPost, Done: true})
@@ -332,6 +333,7 @@ func (g G) planC11() *Plan {
 		}
 		g.drawHost(lab+".host", &p.World.IDP, g.intn(lab+".hosti", nh), m)
 		m.Replica = g.intn(lab+".rep", 2)
+		m.TLS = g.chance(lab+".tls", 35)
 		if fp > 0 && g.chance(lab+".fa", fp) {
 			// an error reply still has to carry the published issuer
 			m.FaultAt, m.FaultKind = g.rng(lab+".fan", 1, 4), g.pick(lab+".fak", "err", "err", "nil_record", "empty_cert", "cert_without_key", "key_without_cert", "err_canceled")
